@@ -2,7 +2,8 @@
 (* Leg 1 for C12: (a) the parser state machine started on every vector of up to MaxLen tokens keeps its index inside
    the vector, makes progress, terminates within one step per token and ends in the outcome Meaning() defines;
    (b) laws of the documented language: attached = separated form, flags commute and are idempotent, -h wins,
-   strict selects a subset of substring, exclusion is the complement, TEST(g, n) = -st g.n, -o synonyms. *)
+   strict selects a subset of substring, exclusion is the complement, TEST(g, n) = -st g.n, -o synonyms; the substring
+   meaning on words over the group letters (prefix \o text \o suffix). *)
 EXTENDS CmdLineLattice
 CONSTANT MaxLen
 Init == \E n \in 0..MaxLen : \E v \in VectorsOfLen(n) : Start(v)
@@ -68,5 +69,15 @@ Laws ==
          /\ Sel(<<T_dxt, g \o <<46>> \o n>>) = (1..Len(Probe)) \ Sel(<<T_dt, g \o <<46>> \o n>>)
          /\ Sel(<<T_dxst, g \o <<46>> \o n>>) = (1..Len(Probe)) \ Sel(<<T_dst, g \o <<46>> \o n>>)
     /\ Sel(<<>>) = 1..Len(Probe)
+    \* the substring meaning on words, stated without HasSub: a text lies in a word iff the word is some prefix \o text \o some suffix;
+    \* a text behind a partial occurrence of itself is found; exclusion is the complement, strict is equality
+    /\ \A f \in GWords(3), s \in GWords(4) :
+         /\ Match(Filt(f, FALSE, FALSE), s) = (\E a \in SeqsUpTo(GChars, 3), b \in SeqsUpTo(GChars, 3) : s = a \o f \o b)
+         /\ Match(Filt(f, FALSE, TRUE), s) = ~Match(Filt(f, FALSE, FALSE), s)
+         /\ Match(Filt(f, TRUE, FALSE), s) = (s = f)
+    /\ \A f \in GWords(3) : \A k \in 1..Len(f) : Match(Filt(f, FALSE, FALSE), SubSeq(f, 1, k) \o f)
+    \* what every reading of a lone -xt agrees on covers the tests of which both halves or neither half match
+    /\ \A g \in GWords(2), n \in NWords(2) : LET c == Meaning(<<T_dxt, g \o <<46>> \o n>>).cfg IN
+         \A t \in WordTests(2) : XtAgreed(t, c) = ((HasSub(t.g, g) /\ HasSub(t.n, n)) \/ (~HasSub(t.g, g) /\ ~HasSub(t.n, n)))
 ASSUME Laws
 =============================================================================
